@@ -104,7 +104,9 @@ class Discriminator(MetadataMixin):
             lazy=lambda: Conversion(
                 identity,
                 source=cls,
-                target=Union[tuple(rec_subclasses(cls))],
+                # serialization uses the first alternative the object is an instance
+                # of: subclasses must come before their own parents
+                target=Union[tuple(reversed(list(rec_subclasses(cls))))],
                 inherited=False,
             ),
             source=cls,
